@@ -10,44 +10,64 @@ import (
 // Bool mirrors atomic.Bool.
 type Bool struct{ v atomic.Bool }
 
-func (b *Bool) Load() bool                    { vrt.Point(); return b.v.Load() }
-func (b *Bool) Store(x bool)                  { vrt.Point(); b.v.Store(x) }
-func (b *Bool) Swap(x bool) bool              { vrt.Point(); return b.v.Swap(x) }
-func (b *Bool) CompareAndSwap(o, n bool) bool { vrt.Point(); return b.v.CompareAndSwap(o, n) }
+func (b *Bool) Load() bool       { vrt.ShimOps++; vrt.Point(); return b.v.Load() }
+func (b *Bool) Store(x bool)     { vrt.ShimOps++; vrt.Point(); b.v.Store(x) }
+func (b *Bool) Swap(x bool) bool { vrt.ShimOps++; vrt.Point(); return b.v.Swap(x) }
+func (b *Bool) CompareAndSwap(o, n bool) bool {
+	vrt.ShimOps++
+	vrt.Point()
+	return b.v.CompareAndSwap(o, n)
+}
 
 // Int64 mirrors atomic.Int64.
 type Int64 struct{ v atomic.Int64 }
 
-func (b *Int64) Load() int64                    { vrt.Point(); return b.v.Load() }
-func (b *Int64) Store(x int64)                  { vrt.Point(); b.v.Store(x) }
-func (b *Int64) Add(d int64) int64              { vrt.Point(); return b.v.Add(d) }
-func (b *Int64) Swap(x int64) int64             { vrt.Point(); return b.v.Swap(x) }
-func (b *Int64) CompareAndSwap(o, n int64) bool { vrt.Point(); return b.v.CompareAndSwap(o, n) }
+func (b *Int64) Load() int64        { vrt.ShimOps++; vrt.Point(); return b.v.Load() }
+func (b *Int64) Store(x int64)      { vrt.ShimOps++; vrt.Point(); b.v.Store(x) }
+func (b *Int64) Add(d int64) int64  { vrt.ShimOps++; vrt.Point(); return b.v.Add(d) }
+func (b *Int64) Swap(x int64) int64 { vrt.ShimOps++; vrt.Point(); return b.v.Swap(x) }
+func (b *Int64) CompareAndSwap(o, n int64) bool {
+	vrt.ShimOps++
+	vrt.Point()
+	return b.v.CompareAndSwap(o, n)
+}
 
 // Int32 mirrors atomic.Int32.
 type Int32 struct{ v atomic.Int32 }
 
-func (b *Int32) Load() int32                    { vrt.Point(); return b.v.Load() }
-func (b *Int32) Store(x int32)                  { vrt.Point(); b.v.Store(x) }
-func (b *Int32) Add(d int32) int32              { vrt.Point(); return b.v.Add(d) }
-func (b *Int32) Swap(x int32) int32             { vrt.Point(); return b.v.Swap(x) }
-func (b *Int32) CompareAndSwap(o, n int32) bool { vrt.Point(); return b.v.CompareAndSwap(o, n) }
+func (b *Int32) Load() int32        { vrt.ShimOps++; vrt.Point(); return b.v.Load() }
+func (b *Int32) Store(x int32)      { vrt.ShimOps++; vrt.Point(); b.v.Store(x) }
+func (b *Int32) Add(d int32) int32  { vrt.ShimOps++; vrt.Point(); return b.v.Add(d) }
+func (b *Int32) Swap(x int32) int32 { vrt.ShimOps++; vrt.Point(); return b.v.Swap(x) }
+func (b *Int32) CompareAndSwap(o, n int32) bool {
+	vrt.ShimOps++
+	vrt.Point()
+	return b.v.CompareAndSwap(o, n)
+}
 
 // Uint64 mirrors atomic.Uint64.
 type Uint64 struct{ v atomic.Uint64 }
 
-func (b *Uint64) Load() uint64                    { vrt.Point(); return b.v.Load() }
-func (b *Uint64) Store(x uint64)                  { vrt.Point(); b.v.Store(x) }
-func (b *Uint64) Add(d uint64) uint64             { vrt.Point(); return b.v.Add(d) }
-func (b *Uint64) CompareAndSwap(o, n uint64) bool { vrt.Point(); return b.v.CompareAndSwap(o, n) }
+func (b *Uint64) Load() uint64        { vrt.ShimOps++; vrt.Point(); return b.v.Load() }
+func (b *Uint64) Store(x uint64)      { vrt.ShimOps++; vrt.Point(); b.v.Store(x) }
+func (b *Uint64) Add(d uint64) uint64 { vrt.ShimOps++; vrt.Point(); return b.v.Add(d) }
+func (b *Uint64) CompareAndSwap(o, n uint64) bool {
+	vrt.ShimOps++
+	vrt.Point()
+	return b.v.CompareAndSwap(o, n)
+}
 
 // Uint32 mirrors atomic.Uint32.
 type Uint32 struct{ v atomic.Uint32 }
 
-func (b *Uint32) Load() uint32                    { vrt.Point(); return b.v.Load() }
-func (b *Uint32) Store(x uint32)                  { vrt.Point(); b.v.Store(x) }
-func (b *Uint32) Add(d uint32) uint32             { vrt.Point(); return b.v.Add(d) }
-func (b *Uint32) CompareAndSwap(o, n uint32) bool { vrt.Point(); return b.v.CompareAndSwap(o, n) }
+func (b *Uint32) Load() uint32        { vrt.ShimOps++; vrt.Point(); return b.v.Load() }
+func (b *Uint32) Store(x uint32)      { vrt.ShimOps++; vrt.Point(); b.v.Store(x) }
+func (b *Uint32) Add(d uint32) uint32 { vrt.ShimOps++; vrt.Point(); return b.v.Add(d) }
+func (b *Uint32) CompareAndSwap(o, n uint32) bool {
+	vrt.ShimOps++
+	vrt.Point()
+	return b.v.CompareAndSwap(o, n)
+}
 
 // Value is atomic.Value.
 type Value = atomic.Value
@@ -55,7 +75,11 @@ type Value = atomic.Value
 // Pointer mirrors atomic.Pointer.
 type Pointer[T any] struct{ v atomic.Pointer[T] }
 
-func (p *Pointer[T]) Load() *T                   { vrt.Point(); return p.v.Load() }
-func (p *Pointer[T]) Store(x *T)                 { vrt.Point(); p.v.Store(x) }
-func (p *Pointer[T]) Swap(x *T) *T               { vrt.Point(); return p.v.Swap(x) }
-func (p *Pointer[T]) CompareAndSwap(o, n *T) bool { vrt.Point(); return p.v.CompareAndSwap(o, n) }
+func (p *Pointer[T]) Load() *T     { vrt.ShimOps++; vrt.Point(); return p.v.Load() }
+func (p *Pointer[T]) Store(x *T)   { vrt.ShimOps++; vrt.Point(); p.v.Store(x) }
+func (p *Pointer[T]) Swap(x *T) *T { vrt.ShimOps++; vrt.Point(); return p.v.Swap(x) }
+func (p *Pointer[T]) CompareAndSwap(o, n *T) bool {
+	vrt.ShimOps++
+	vrt.Point()
+	return p.v.CompareAndSwap(o, n)
+}
